@@ -108,11 +108,16 @@ func (c *TCPConn) Read(p []byte) (int, error) {
 		if c.closed {
 			return 0, c.connErr("read", net.ErrClosed)
 		}
-		if c.closedRead {
-			return 0, io.EOF
-		}
 		if len(p) == 0 {
 			return 0, nil
+		}
+		// Go checks the deadline before it attempts the read (poll.prepareRead): an
+		// expired deadline wins over buffered data, EOF and RST.
+		if c.rdl.expired() {
+			return 0, c.connErr("read", errTimeout)
+		}
+		if c.closedRead {
+			return 0, io.EOF
 		}
 		if c.rst {
 			return 0, c.connErr("read", syscall.ECONNRESET)
@@ -140,9 +145,6 @@ func (c *TCPConn) Read(p []byte) (int, error) {
 		if c.rfin {
 			return 0, io.EOF
 		}
-		if c.rdl.expired() {
-			return 0, c.connErr("read", errTimeout)
-		}
 		c.readers = append(c.readers, simrt.Cur())
 		simrt.Block("tcp read", c)
 	}
@@ -159,6 +161,9 @@ func (c *TCPConn) Write(p []byte) (int, error) {
 		if c.closed {
 			return total, c.connErr("write", net.ErrClosed)
 		}
+		if c.wdl.expired() { // poll.prepareWrite: the deadline is checked first
+			return total, c.connErr("write", errTimeout)
+		}
 		if c.closedWrite {
 			return total, c.connErr("write", syscall.EPIPE)
 		}
@@ -173,6 +178,7 @@ func (c *TCPConn) Write(p []byte) (int, error) {
 			// Data to a fully closed endpoint is answered with RST; this write
 			// itself still succeeds, as on a real stack.
 			c.Wrote = append(c.Wrote, p...)
+			simrt.Account(len(p))
 			total += len(p)
 			c.gotRST()
 			return total, nil
@@ -200,6 +206,7 @@ func (c *TCPConn) Write(p []byte) (int, error) {
 		raceWrite()
 		pe.rbuf = append(pe.rbuf, p[:n]...)
 		c.Wrote = append(c.Wrote, p[:n]...)
+		simrt.Account(n)
 		simrt.Log("tcp:write", int64(c.Rec.ID)*2+int64(c.side), int64(n))
 		p = p[n:]
 		total += n
